@@ -652,3 +652,71 @@ Print Assumptions c09_decided_wire.
 Print Assumptions c09_sees_100_wire.
 Print Assumptions c09_wire_tests_nonvacuous.
 Print Assumptions c09_hist_method.
+
+(* ================================================================== the successor decisions of the code itself (translated from the source) *)
+(** The five [proceed] functions of src/client/flow.rs that branch are translated on every run by tools/rs2coq2.py as decision
+    skeletons ([theories/Gen2.v], [gen_next_*]: the conditions of the Rust function over its flags -- can_proceed(), should_send_body,
+    await_100_continue, need_response_body(), is_close_delimited(), is_redirect() --, the XxxResult variant each path returns and
+    the close reasons added on the way; everything that only moves values between typestate wrappers is skipped).
+    proofs/Gen2_equiv_flow.v proves: whenever the model's [proceed] succeeds, the successor it yields (or "stays") is the one the
+    translated decision computes from the model's own flags, and the close reasons it adds are the ones the code adds.  So the
+    successor clauses of c09_successor / c09_step are tied to the source text by proof: a change of one of these decisions
+    (e.g. entering Redirect only with a Location, dropping the Await100 edge) changes Gen2.v and the tables below no longer hold.
+    The tables are proved by evaluating the generated boolean functions on all combinations of flags, so any equivalent nesting
+    or ordering of the tests is accepted.  Trusted: the translator (which statements it skips). *)
+From Hoot Require Import GenLib Gen2.
+From Hoot.proofs Require Import Gen2_equiv_flow.
+Theorem c09_code_send_request_table : forall cp ssb aw,
+  gen_next_send_request cp ssb aw =
+  (if negb cp then None else Some (if ssb then (if aw then TAwait100 else TSendBody) else TRecvResponse), []).
+Proof. exact gen_next_send_request_table. Qed.
+Theorem c09_code_await_100_table : forall ssb, gen_next_await_100 ssb = (Some (if ssb then TSendBody else TRecvResponse), []).
+Proof. exact gen_next_await_100_table. Qed.
+Theorem c09_code_send_body_table : forall cp, gen_next_send_body cp = (if negb cp then None else Some TRecvResponse, []).
+Proof. exact gen_next_send_body_table. Qed.
+Theorem c09_code_recv_response_table : forall cp nb cd ir,
+  gen_next_recv_response cp nb cd ir =
+  if negb cp then (None, [])
+  else if nb then (Some TRecvBody, if cd then [CloseDelimitedBody] else [])
+  else (Some (if ir then TRedirect else TCleanup), []).
+Proof. exact gen_next_recv_response_table. Qed.
+Theorem c09_code_recv_body_table : forall cp ir,
+  gen_next_recv_body cp ir = (if negb cp then None else Some (if ir then TRedirect else TCleanup), []).
+Proof. exact gen_next_recv_body_table. Qed.
+Theorem c09_code_send_request : forall f r,
+  send_request_proceed f = Ok r ->
+  exists cp, send_request_can_proceed f = Ok cp /\
+             fst (gen_next_send_request cp (i_should_send_body f) (i_await_100 f)) = option_map fst r /\
+             snd (gen_next_send_request cp (i_should_send_body f) (i_await_100 f)) = [].
+Proof. exact gen_next_send_request_ok. Qed.
+Theorem c09_code_await_100 : forall f t f',
+  await_100_proceed f = Ok (t, f') -> gen_next_await_100 (i_should_send_body f) = (Some t, []).
+Proof. exact gen_next_await_100_ok. Qed.
+Theorem c09_code_send_body : forall f r,
+  send_body_proceed f = Ok r ->
+  exists cp, send_body_can_proceed f = Ok cp /\ gen_next_send_body cp = (option_map fst r, []).
+Proof. exact gen_next_send_body_ok. Qed.
+Theorem c09_code_recv_response : forall f r,
+  recv_response_proceed f = Ok r ->
+  exists cp, recv_response_can_proceed f = Ok cp /\
+    let g := gen_next_recv_response cp (need_response_body (i_call f)) (close_flag f) (is_redirect f) in
+    fst g = option_map fst r /\
+    match r with
+    | Some (_, f') => add_all (i_reasons f) (snd g) = Ok (i_reasons f')
+    | None => snd g = []
+    end.
+Proof. exact gen_next_recv_response_ok. Qed.
+Theorem c09_code_recv_body : forall f r,
+  recv_body_proceed f = Ok r ->
+  exists cp, recv_body_can_proceed f = Ok cp /\ gen_next_recv_body cp (is_redirect f) = (option_map fst r, []).
+Proof. exact gen_next_recv_body_ok. Qed.
+Print Assumptions c09_code_send_request_table.
+Print Assumptions c09_code_await_100_table.
+Print Assumptions c09_code_send_body_table.
+Print Assumptions c09_code_recv_response_table.
+Print Assumptions c09_code_recv_body_table.
+Print Assumptions c09_code_send_request.
+Print Assumptions c09_code_await_100.
+Print Assumptions c09_code_send_body.
+Print Assumptions c09_code_recv_response.
+Print Assumptions c09_code_recv_body.
